@@ -77,14 +77,15 @@ def groupEntries (f : NcFile) (g : Grp) : List Entry :=
     g.vars.map fun v => mkVar f g.path { v with attrs := v.attrs.filter fun a => a.1 ≠ "path" }
 
 /-- `NetCDFHandler.__init__`: the dataset itself, non-coordinate root variables (lazy), the groups, and last the root
-    coordinate variables (read eagerly and raw, with `dims = ["/" + name]`) -/
+    variables named like a root dimension (read eagerly and raw; repaired: with their own dimensions
+    `["/" + d for d in var.dimensions]`, the pinned tree hard-coded `["/" + name]`) -/
 def netcdfEntries (f : NcFile) : List Entry :=
   Entry.group [] f.root.dims f.root.attrs ::
   ((f.root.vars.filter fun v => !isCoord f v).map fun v =>
       Entry.var [] v.name v.ty v.shape (v.dims.map fun d => (([] : List String), d)) v.attrs true)
   ++ f.groups.flatMap (groupEntries f)
   ++ ((f.root.dims.map Prod.fst).filterMap fun d => (f.root.vars.find? fun v => v.name = d)).map fun v =>
-      Entry.var [] v.name v.ty v.shape [(([] : List String), v.name)] v.attrs false
+      Entry.var [] v.name v.ty v.shape (v.dims.map fun d => (([] : List String), d)) v.attrs false
 
 /-! ### `LazyVariable.__getitem__` -/
 
